@@ -3633,6 +3633,8 @@ class __implementations__:
 
     @implements(numpy.interp)
     def interp(x, xp, fp, left=None, right=None):
+        if numpy.ndim(xp) != 1 or numpy.shape(fp) != numpy.shape(xp):
+            raise ValueError('fp and xp are not of the same length')
         index = numpy.searchsorted(xp, x)
         if left is not None: # x == xp[0] belongs to the table, not to the left of it
             index = numpy.maximum(index, numpy.minimum(numpy.searchsorted(xp, x, side='right'), 1))
